@@ -20,7 +20,10 @@ Init == \E r \in DOMAIN Fam.recipes : \E ds \in [Call -> DOMAIN Docs] :
           /\ CInit(Build(Fam.recipes[r]), [c \in Call |-> Docs[ds[c]].toks])
 
 Next == CNext /\ UNCHANGED <<rid, dids>>
-Spec == Init /\ [][Next]_vars
+Spec == Init /\ [][Next]_vars /\ \A c \in Call : WF_vars(StepCall(c) /\ UNCHANGED <<rid, dids>>)
+
+\* no call can be starved by the others: with each call scheduled fairly, all of them finish
+Termination == <>AllDone
 
 EmitCase == (Emit /\ AllDone) =>
   PrintT(<<"CASE", ToJson([rid |-> rid, dids |-> dids, sched |-> sched, outs |-> [c \in Call |-> cs[c].out]])>>)
